@@ -187,6 +187,14 @@ func mapHeapKey(m *types.Map) string {
 // havoc builds the loop-head state from the pre-state.
 func (fx *FuncCtx) havoc(pre *State, ms *modSet, lf *loopFrame, bodyDefs map[types.Object]ast.Expr) *State {
 	h := pre.clone()
+	if len(ms.mem) > 0 || len(ms.memAll) > 0 || len(ms.heap) > 0 || ms.heapAll {
+		// earlier iterations may have stored to caller-visible memory: whether anything has been
+		// written is unknown at the loop head (and therefore after the loop). Cloning the flag from
+		// the pre-state made "panics before any write" hold trivially for a panic that follows a
+		// loop with stores (reported by a contract-writing agent on stat.Histogram).
+		w := fx.freshConst(fmt.Sprintf("written@L%d", lf.ord), SBool)
+		h.written = fx.define("written", Or(pre.written, w))
+	}
 	if pre.allocTop.S != "" {
 		// earlier iterations may have allocated objects
 		h.allocTop = fx.freshConst(fmt.Sprintf("alloctop@L%d", lf.ord), SInt)
@@ -1333,6 +1341,11 @@ func (fx *FuncCtx) proveAll(hyps []Term, goals []Term, timeoutMs int, slow ...[]
 					tmo = timeoutMs * 12
 				}
 				r := solve(q, tmo, false)
+				if r.Status == "unknown" && tmo > timeoutMs {
+					// an undecided user invariant would be dropped and fail the clause it carries:
+					// one more attempt with other seeds before giving up (a refuted one is "sat")
+					r = solveRetry(q, tmo)
+				}
 				res[i] = r.Status == "unsat"
 			}
 			done <- i
